@@ -1,4 +1,6 @@
 import Verif.Proofs.C09JsSep
+import Verif.Proofs.C09JsTree
+import Verif.Proofs.JsPrintGwf
 /-!
 # C09 (JS) — property-level theorems of the JavaScript slice
 
@@ -7,7 +9,8 @@ Theorem A (`js_token_sep`): the writer model of C01 (`Model.JsPrint.emit`: `writ
 tokens: read back with the independent lexer `Spec.C09JsLex.lex`, its output gives exactly the tokens it was given.
 -/
 namespace Verif.Proofs.C09Js
-open Verif.Spec.C09JsLex Verif.Spec.JsGrammar Verif.Model.JsPrint Verif.Proofs.C09JsSep
+open Verif.Spec.C09JsLex Verif.Spec.JsSyntax Verif.Spec.JsGrammar Verif.Model.JsAst Verif.Model.JsPrint
+open Verif.Proofs.C09JsSep Verif.Proofs.C09JsTree
 
 /-- **Token separation of the writer (Theorem A).**  For every token list `ts` of the C01 token alphabet
     (identifiers, the keywords of the fragment, decimal numbers as the printer spells them — `5`, `1e3`, and `5.`
@@ -39,5 +42,56 @@ example : (∀ t ∈ sepExample, tokOk t = true) ∧ adjChain sepExample = true 
     goalsOk {} true sepExample = true := by decide
 
 example : String.ofList (emit sepExample) = "a+ ++b-- >c/d<! --e in f- -5..g+typeof 1e3" := by decide
+
+
+/-- **Every derivation tree is safe for the writer (Theorem B, expression level).**  For every tree `t` of the
+    ECMA-262 expression grammar of the fragment (`gwfA`: every node an instance of a production; `&&`, `||`, `??`
+    read as associative) whose names are plain identifiers and whose strings are in the modelled alphabet
+    (`treeOk`), the terminal string `yield t` satisfies all hypotheses of `js_token_sep`: valid tokens, no unsafe
+    adjacency, no leading `--` `>`, and the goal tracker of the lexer is in operator position at every `/`.
+    By structural induction over `t`; the invariant: the first token of an expression starts an operand, the last
+    one ends an operand, the tracker returns to the same bracket stack in operator position. -/
+theorem js_tree_tokens_safe (t : E) (hg : gwfA t = true) (ht : treeOk t = true) :
+    (∀ x ∈ yield t, tokOk x = true) ∧ adjChain (yield t) = true ∧ headOk (yield t) = true ∧
+      goalsOk {} true (yield t) = true := by
+  have hs := yield_seg t hg ht
+  exact ⟨hs.piece.ok, hs.piece.adj, yield_headOk t hg ht,
+    (hs.piece.goal {} true ⟨rfl, rfl, rfl, rfl⟩ (fun _ => rfl)).1⟩
+
+/-- hence the bytes written for any such tree lex back to exactly its terminal string -/
+theorem js_tree_relex (t : E) (hg : gwfA t = true) (ht : treeOk t = true) :
+    lex (emit (yield t)) = some (lexToks true (yield t)) := by
+  obtain ⟨h1, h2, h3, h4⟩ := js_tree_tokens_safe t hg ht
+  exact js_token_sep (yield t) h1 h2 h3 h4
+
+/-- **The expression printer of C01 never glues tokens and its output is in the language.**  For every parser-shaped
+    input tree `e` (`wfGo`), every context precedence `p ≤ OpCall` and every fuel: if the printer model `printT`
+    (group dropping, literal lowering, `a["b"] → a.b`, `(5).a → 5..a`, …) produces the tree `t` and the names and
+    strings of `t` are plain (`treeOk`), then the bytes `emit (yield t)` the writer produces are read back by the
+    independent lexer as exactly the tokens `yield t`, and these tokens derive `t` in the independent grammar
+    (`DerivesA`, C01).  Printer path covered: `minifyExpr` without `optimizeCondExpr`/`optimizeUnaryExpr`, plus the
+    writer; not covered: the statement printer and the rewrites (swept by the harness). -/
+theorem js_expr_relex (fuel : Nat) (e : E) (p : Prec) (t : E) (hp : p ≤ opCall)
+    (hw : Verif.Proofs.JsPrintGwf.wfGo e = true) (hf : Verif.Proofs.JsPrintGwf.FitsIn p e = true)
+    (h : printT fuel e p = some t) (ht : treeOk t = true) :
+    lex (emit (yield t)) = some (lexToks true (yield t)) ∧ DerivesA p (yield t) t := by
+  have hp' : p ≤ 17 := by
+    have : opCall = 17 := by decide
+    rw [this] at hp; exact hp
+  have inv := Verif.Proofs.JsPrintGwf.printT_gwf fuel e p t hp' hw h
+  exact ⟨js_tree_relex t inv.g ht, inv.g, inv.lv hf, rfl⟩
+
+/-- `(a+b)*c / (d - -e) < !--f, 5..g in h` printed and read back -/
+example : printT 40 (.comma [.bin .lt (.bin .div (.bin .mul (.group (.bin .add (.var "a") (.var "b"))) (.var "c"))
+      (.group (.bin .sub (.var "d") (.unary .neg (.var "e"))))) (.unary .not (.unary .predec (.var "f"))),
+      .bin .inOp (.dot (.group (.lit (.num 5))) "g") (.var "h")]) 0
+    = some (.comma [.bin .lt (.bin .div (.bin .mul (.group (.bin .add (.var "a") (.var "b"))) (.var "c"))
+      (.group (.bin .sub (.var "d") (.unary .neg (.var "e"))))) (.unary .not (.unary .predec (.var "f"))),
+      .bin .inOp (.dot (.lit (.num 5)) "g") (.var "h")]) := by rfl
+
+example : String.ofList (emit (yield (.comma [.bin .lt (.bin .div (.bin .mul (.group (.bin .add (.var "a") (.var "b")))
+      (.var "c")) (.group (.bin .sub (.var "d") (.unary .neg (.var "e"))))) (.unary .not (.unary .predec (.var "f"))),
+      .bin .inOp (.dot (.lit (.num 5)) "g") (.var "h")])))
+    = "(a+b)*c/(d- -e)<! --f,5..g in h" := by decide
 
 end Verif.Proofs.C09Js
